@@ -1,7 +1,7 @@
 import Hertz.Proofs.RespRoundtrip
 import Hertz.Model.Http1.RespStream
 /-!
-Interim responses in front of the final one (`resp.ReadHeaders`: `if StatusCode() == 100 { ReadHeader again }`).
+Interim responses in front of the final one (`resp.ReadHeaders`: `for isInterim(StatusCode()) { ReadHeader again }`).
 -/
 namespace Hertz.H1.RT
 open Hertz Hertz.H1 Hertz.H1.RespRead Hertz.Gen.Str
@@ -30,32 +30,50 @@ theorem readHeader_written (dn : Bool) (e : End) (st : Nat) (reason : Bytes) (fs
     rw [← List.drop_drop, hd, List.drop_left]
   rw [hd2]; rfl
 
-/-- an interim `100 Continue` head as a server writes it: status line with any reason, any well-formed fields -/
-def interim100 (reason : Bytes) (fs : List (Bytes × Bytes)) : Bytes :=
-  statusLine 100 reason ++ strCRLF ++ HW.block fs
+/-- an interim head as a server writes it: status line with any reason, any well-formed fields -/
+def interimHead (st : Nat) (reason : Bytes) (fs : List (Bytes × Bytes)) : Bytes :=
+  statusLine st reason ++ strCRLF ++ HW.block fs
 
-/-- `ReadHeaders` behind an interim `100`: exactly ONE more `ReadHeader`, on exactly what follows the interim head -/
-theorem readHeaders_interim (dn : Bool) (e : End) (reason : Bytes) (fs : List (Bytes × Bytes)) (X : Bytes)
-    (hr : ∀ x ∈ reason, x ≠ 13 ∧ x ≠ 10) (h : wfFields dn fs = true) (herr : (scanned dn 100 fs).err = false) :
-    RespRead.readHeaders dn e (interim100 reason fs ++ X) = RespRead.readHeader dn e X := by
-  unfold RespRead.readHeaders interim100
-  rw [readHeader_written dn e 100 reason fs X (by decide) hr h herr]
-  have : (finishHead (scanned dn 100 fs).head).status = 100 := by
+/-- an interim `100 Continue` head -/
+abbrev interim100 (reason : Bytes) (fs : List (Bytes × Bytes)) : Bytes := interimHead 100 reason fs
+
+theorem isInterim_lt {st : Nat} (hi : isInterim st = true) : st < 2 ^ 63 := by
+  simp only [isInterim, Bool.or_eq_true, beq_iff_eq] at hi
+  rcases hi with (rfl | rfl) | rfl <;> decide
+
+/-- `ReadHeaders` behind an interim head (`100`, `102`, `103`): it goes on with exactly what follows the interim head
+(8ec4dd8; before it only ONE `100` was skipped and any other interim head was returned as the final response) -/
+theorem readHeaders_interim (dn : Bool) (e : End) (st : Nat) (reason : Bytes) (fs : List (Bytes × Bytes)) (X : Bytes)
+    (hi : isInterim st = true)
+    (hr : ∀ x ∈ reason, x ≠ 13 ∧ x ≠ 10) (h : wfFields dn fs = true) (herr : (scanned dn st fs).err = false) :
+    RespRead.readHeaders dn e (interimHead st reason fs ++ X) = RespRead.readHeaders dn e X := by
+  rw [readHeaders_step]
+  unfold interimHead
+  rw [readHeader_written dn e st reason fs X (isInterim_lt hi) hr h herr]
+  have : (finishHead (scanned dn st fs).head).status = st := by
     rw [finishHead_status, scanned, applyAll_status]
-  simp only [this, if_true]
+  simp only [this, hi, if_true]
 
-/-- … which is `ReadHeaders` of what follows, when that does not itself start with a `100` head -/
-theorem readHeaders_interim_final (dn : Bool) (e : End) (reason : Bytes) (fs : List (Bytes × Bytes)) (X : Bytes)
-    (hr : ∀ x ∈ reason, x ≠ 13 ∧ x ≠ 10) (h : wfFields dn fs = true) (herr : (scanned dn 100 fs).err = false)
-    (hfin : ∀ hd r, RespRead.readHeader dn e X = .ok (hd, r) → hd.status ≠ 100) :
-    RespRead.readHeaders dn e (interim100 reason fs ++ X) = RespRead.readHeaders dn e X := by
-  rw [readHeaders_interim dn e reason fs X hr h herr]
-  unfold RespRead.readHeaders
-  cases hx : RespRead.readHeader dn e X with
-  | error x => rfl
-  | ok v =>
-    obtain ⟨hd, r⟩ := v
-    have := hfin hd r hx
-    simp only [this, if_false]
+/-- an interim head a server can write -/
+structure IHead where
+  st : Nat
+  reason : Bytes
+  fs : List (Bytes × Bytes)
+
+def IHead.Wf (dn : Bool) (i : IHead) : Prop :=
+  isInterim i.st = true ∧ (∀ x ∈ i.reason, x ≠ 13 ∧ x ≠ 10) ∧ wfFields dn i.fs = true ∧ (scanned dn i.st i.fs).err = false
+
+def IHead.bytes (i : IHead) : Bytes := interimHead i.st i.reason i.fs
+
+/-- ANY NUMBER of interim heads in front: `ReadHeaders` goes on with what follows the last of them -/
+theorem readHeaders_interims (dn : Bool) (e : End) : ∀ (is : List IHead) (X : Bytes), (∀ i ∈ is, i.Wf dn) →
+    RespRead.readHeaders dn e ((is.map IHead.bytes).flatten ++ X) = RespRead.readHeaders dn e X
+  | [], X, _ => by simp
+  | i :: is, X, h => by
+    obtain ⟨h1, h2, h3, h4⟩ := h i (by simp)
+    simp only [List.map_cons, List.flatten_cons, List.append_assoc]
+    rw [show i.bytes = interimHead i.st i.reason i.fs from rfl,
+      readHeaders_interim dn e i.st i.reason i.fs _ h1 h2 h3 h4]
+    exact readHeaders_interims dn e is X (fun j hj => h j (by simp [hj]))
 
 end Hertz.H1.RT
